@@ -247,6 +247,11 @@ def load_known() -> list[dict[str, Any]]:
 def sig_matches(known_sig: dict[str, Any], sig: dict[str, Any]) -> bool:
     """A known signature matches when each of its keys equals the violation's key."""
     for k, v in known_sig.items():
+        if k.endswith("__contains"):
+            field = k[: -len("__contains")]
+            if field not in sig or str(v) not in str(sig[field]):
+                return False
+            continue
         if k not in sig:
             return False
         if jdump(sig[k]) != jdump(v):
